@@ -45,11 +45,13 @@ type world struct {
 	H    kyber.Point
 	D    Dlr
 
-	sidNames map[string]string
-	junk     int
-	items    *[]string
-	desc     []string
-	ovr      []string
+	sidNames    map[string]string
+	junk        int
+	items       *[]string
+	desc        []string
+	ovr         []string
+	parts       []*participant
+	mainCommits []kyber.Point
 }
 
 func (w *world) logf(f string, a ...any) { w.desc = append(w.desc, fmt.Sprintf(f, a...)) }
@@ -250,7 +252,7 @@ func (w *world) dealFrom(f, g *share.PriPoly, commits []kyber.Point, t uint32, i
 var dealClasses = []string{"honest", "honest", "honest", "badshare", "badshare", "badcommits-stale", "badcommits-resid",
 	"otherpoly", "wrongindex", "badT-stale", "badT-resid", "otherT", "wrongrecipient", "forgedsig-key", "forgedsig-bytes",
 	"wrongctx-verifiers", "wrongctx-dealer", "tampered", "replay", "sid-junk", "sid-swapped", "badrnd", "rndindex", "none",
-	"xsession-deal", "forgedsig-transplant", "dhkey-transplant", "none"}
+	"xsession-deal", "forgedsig-transplant", "dhkey-transplant", "equivocate-last", "equivocate-last", "none"}
 
 type participant struct {
 	ver      Ver
@@ -329,6 +331,8 @@ func scenario(w *world, honest bool) {
 	}
 	mainView := w.viewOf(honestDeals[0])
 	w.regSid(w.dpub, w.vpub, mainView.commits, mainView.t)
+	w.sidBinding(mainView, rng)
+	w.mainCommits = mainView.commits
 	if !bytes.Equal(D.Sid(), mainView.sid) {
 		w.fail("NewDealer/session-id", "dealer session id is not the hash of its commitments", nil)
 	}
@@ -399,6 +403,7 @@ func scenario(w *world, honest bool) {
 
 	// ---- deals
 	parts := make([]*participant, w.n)
+	w.parts = parts
 	pool := []*NResp{}
 	classes := make([]string, w.n)
 	for i := 0; i < w.n; i++ {
@@ -461,7 +466,7 @@ func scenario(w *world, honest bool) {
 		case "wrongindex":
 			encs = append(encs, w.seal(honestDeals[j].clone(), i, class))
 		case "badT-stale", "badT-resid":
-			base.T = []uint32{0, 1, uint32(w.n + 1), uint32(w.n + 7), 4294967295}[rng.Intn(5)]
+			base.T = w.edgeT(rng)
 			if class == "badT-resid" {
 				base.Sid = w.regSid(w.dpub, w.vpub, base.Commits, base.T)
 			}
@@ -505,6 +510,23 @@ func scenario(w *world, honest bool) {
 			e := P.Tamper(w.seal(base, i, class), "cipher")
 			e.Meta.Intact = false
 			encs = append(encs, e)
+		case "equivocate-last":
+			// another polynomial that differs in ONE coefficient commitment (the last, or a random one), with the
+			// matching share and the session id re-hashed: consistent for this verifier, but a different sharing
+			k := len(base.Commits) - 1
+			if rng.Chance(30) {
+				k = rng.Intn(len(base.Commits))
+			}
+			delta := w.pick()
+			xk := w.s.Scalar().One()
+			x := w.s.Scalar().SetInt64(int64(i) + 1)
+			for e := 0; e < k; e++ {
+				xk = w.s.Scalar().Mul(xk, x)
+			}
+			base.Commits[k] = w.s.Point().Add(base.Commits[k], w.s.Point().Mul(delta, nil))
+			base.V = w.s.Scalar().Add(base.V, w.s.Scalar().Mul(delta, xk))
+			base.Sid = w.regSid(w.dpub, w.vpub, base.Commits, base.T)
+			encs = append(encs, w.seal(base, i, class))
 		case "xsession-deal":
 			// the encrypted deal of the other session, replayed here: a consistent deal of the same dealer
 			encs = append(encs, s2encs[i])
@@ -713,6 +735,80 @@ func scenario(w *world, honest bool) {
 		}
 	}
 
+	// ---- threshold probes: fresh verifiers, each handed one otherwise perfect deal whose threshold is out of
+	// range (every boundary of the uint32 / int32 / n ranges), with the session id re-hashed for that threshold
+	if !honest {
+		for k := 0; k < 4; k++ {
+			i := rng.Intn(w.n)
+			v, err := P.NewVerifier(w.s, w.vsec[i], w.dpub, w.vpub)
+			if err != nil {
+				panic(err)
+			}
+			p := &participant{ver: v, standing: map[uint32]bool{}, okJust: map[uint32]bool{}, signedOK: map[uint32]bool{}}
+			d := honestDeals[i].clone()
+			d.T = w.edgeT(rng)
+			class := "probeT-resid"
+			if rng.Chance(75) {
+				d.Sid = w.regSid(w.dpub, w.vpub, d.Commits, d.T)
+			} else {
+				class = "probeT-stale"
+			}
+			w.logf("threshold probe: verifier %d T=%d %s", i, d.T, class)
+			w.deliverEnc(p, i, w.seal(d, i, class), 0)
+			w.deliverTimeout(p, i)
+			if w.dl != nil {
+				w.id++
+				*w.items = append(*w.items, fmt.Sprintf("(CVer %d %d %s %s %s %d %s %s)", w.id, P.Var(), w.hz(), w.zp(w.dpub), w.zps(w.vpub), i, w.zp(w.vpub[i]), vh.CoqList(p.steps)))
+				w.rep.Index(w.id, map[string]any{"kind": "threshold-probe", "proto": P.Name(), "n": w.n, "T": d.T, "index": i, "class": class})
+				w.rep.Count(strings.Join(p.steps, ";"), true)
+			}
+		}
+	}
+
+	// ---- justification probe: a fresh verifier with an honest deal, two signed complaints, then incorrect and
+	// correct justifications in every order, the remaining approvals and a time-out: an incorrect justification
+	// must stick whatever follows
+	if !honest && w.n >= 3 {
+		i := rng.Intn(w.n)
+		v, err := P.NewVerifier(w.s, w.vsec[i], w.dpub, w.vpub)
+		if err != nil {
+			panic(err)
+		}
+		p := &participant{ver: v, standing: map[uint32]bool{}, okJust: map[uint32]bool{}, signedOK: map[uint32]bool{}}
+		w.logf("justification probe at verifier %d", i)
+		w.deliverEnc(p, i, w.seal(honestDeals[i].clone(), i, "probe-honest"), 0)
+		c1, c2 := (i+1)%w.n, (i+2)%w.n
+		for j := 0; j < w.n; j++ {
+			if j == i {
+				continue
+			}
+			r := &NResp{Sid: mainView.sid, Idx: uint32(j), Appr: j != c1 && j != c2}
+			w.signResp(r, w.vsec[j])
+			r.Tag = "verifier-signed"
+			w.deliverResp(p, i, r)
+		}
+		bad := honestDeals[c1].clone()
+		bad.V = w.s.Scalar().Add(bad.V, w.s.Scalar().One())
+		js := []*NJust{{Idx: uint32(c1), Deal: bad, Tag: "bad-share"}, {Idx: uint32(c1), Deal: honestDeals[c1].clone(), Tag: "good"},
+			{Idx: uint32(c2), Deal: honestDeals[c2].clone(), Tag: "good"}}
+		if rng.Chance(30) {
+			js[0] = &NJust{Idx: uint32(c1), Deal: honestDeals[c2].clone(), Tag: "other-index"}
+		}
+		for _, k := range permute(rng, len(js)) {
+			w.deliverJust(p, i, js[k])
+		}
+		if rng.Bool() {
+			w.deliverJust(p, i, js[1])
+		}
+		w.deliverTimeout(p, i)
+		if w.dl != nil {
+			w.id++
+			*w.items = append(*w.items, fmt.Sprintf("(CVer %d %d %s %s %s %d %s %s)", w.id, P.Var(), w.hz(), w.zp(w.dpub), w.zps(w.vpub), i, w.zp(w.vpub[i]), vh.CoqList(p.steps)))
+			w.rep.Index(w.id, map[string]any{"kind": "justification-probe", "proto": P.Name(), "n": w.n, "t": w.t, "index": i, "history": w.desc[len(w.desc)-min(len(w.desc), 12):]})
+			w.rep.Count(strings.Join(p.steps, ";"), true)
+		}
+	}
+
 	// ---- the dealer's own history
 	w.dealerHistory(pool, honest, dealerPre, secret, classes)
 
@@ -721,6 +817,48 @@ func scenario(w *world, honest bool) {
 		w.honestOracles(parts, secret, honestDeals)
 	}
 	w.rep.Dist(P.Name() + "/" + map[bool]string{true: "honest", false: "adversarial"}[honest] + "/" + w.name)
+}
+
+// sidBinding: the session id must change with every single input it is meant to bind
+func (w *world) sidBinding(mv *view, rng *vh.Rng) {
+	diff := func(field string, dealer kyber.Point, vs, cs []kyber.Point, t uint32) {
+		if bytes.Equal(w.P.SessionID(w.s, dealer, vs, cs, t), mv.sid) {
+			w.fail("sessionID/does-not-bind:"+field, "the session id does not change when "+field+" changes", nil)
+		}
+	}
+	other := w.s.Point().Mul(w.pick(), nil)
+	diff("dealer", other, w.vpub, mv.commits, mv.t)
+	diff("threshold", w.dpub, w.vpub, mv.commits, mv.t+1)
+	for k := range w.vpub {
+		vs := append([]kyber.Point(nil), w.vpub...)
+		vs[k] = other
+		diff(fmt.Sprintf("verifier[%d of %d]", k, len(vs)), w.dpub, vs, mv.commits, mv.t)
+	}
+	for k := range mv.commits {
+		cs := append([]kyber.Point(nil), mv.commits...)
+		cs[k] = w.s.Point().Add(cs[k], w.s.Point().Base())
+		pos := "middle"
+		if k == 0 {
+			pos = "first"
+		} else if k == len(cs)-1 {
+			pos = "last"
+		}
+		diff("commitment["+pos+"]", w.dpub, w.vpub, cs, mv.t)
+	}
+	if len(w.vpub) > 1 && !w.vpub[0].Equal(w.vpub[1]) {
+		vs := append([]kyber.Point(nil), w.vpub...)
+		vs[0], vs[1] = vs[1], vs[0]
+		diff("verifier order", w.dpub, vs, mv.commits, mv.t)
+	}
+	diff("commitments truncated", w.dpub, w.vpub, mv.commits[:len(mv.commits)-1], mv.t)
+}
+
+// edgeT: an out-of-range threshold, from every boundary a range check could get wrong
+func (w *world) edgeT(rng *vh.Rng) uint32 {
+	n := uint32(w.n)
+	c := []uint32{0, 1, n + 1, n + 2, n + 7, 255, 256 + n, 65535, 65536 + 2, 1<<31 - 1, 1 << 31, 1<<31 + 2, 1<<31 + n, 1<<31 + n + 1,
+		0xC0000002, 1<<32 - 1 - n, 1<<32 - 2, 1<<32 - 1}
+	return c[rng.Intn(len(c))]
 }
 
 func (w *world) hz() string {
@@ -794,6 +932,9 @@ func (w *world) deliverEnc(p *participant, i int, e *NEnc, k int) {
 		if w.dl != nil {
 			out = fmt.Sprintf("(XResp %s %s %s %s)", w.sid(r.Sid), u32(r.Idx), vh.CoqBool(r.Appr), vh.CoqBool(sv))
 		}
+		if m.Deal != nil {
+			r.About, r.AboutCommits, r.AboutT = true, m.Deal.Commits, m.Deal.T
+		}
 		if p.resp == nil {
 			p.resp = r
 			if r.Appr {
@@ -841,6 +982,10 @@ func (w *world) noteAccepted(p *participant, r *NResp) {
 	}
 	if p.view != nil && !bytes.Equal(r.Sid, p.view.sid) {
 		w.fail("verifyResponse/accepted-other-session:"+r.Tag, "a response for another session id was accepted", nil)
+		return
+	}
+	if r.Tag == "real" && r.About && p.view != nil && (!pointsEq(r.AboutCommits, p.view.commits) || r.AboutT != p.view.t) {
+		w.fail("verifyResponse/accepted-response-about-other-commitments", "the response of a verifier holding other commitments / another threshold was counted for this deal", nil)
 		return
 	}
 	if r.Appr {
@@ -983,6 +1128,8 @@ func (w *world) dealerHistory(pool []*NResp, honest bool, pre string, secret kyb
 			genuine := !r.Meta.Junk && int(r.Idx) < w.n && r.Meta.Key.Equal(w.vpub[r.Idx]) && bytes.Equal(r.Meta.Sid, r.Sid) && r.Meta.Idx == r.Idx && r.Meta.Appr == r.Appr
 			if !genuine || !bytes.Equal(r.Sid, D.Sid()) {
 				w.fail("Dealer.ProcessResponse/accepted-forged-response:"+r.Tag, "the dealer accepted a forged response or one for another session", nil)
+			} else if r.Tag == "real" && r.About && (!pointsEq(r.AboutCommits, w.mainCommits) || r.AboutT != w.t) {
+				w.fail("Dealer.ProcessResponse/accepted-response-about-other-commitments", "the dealer counted the response of a verifier holding other commitments / another threshold", nil)
 			} else if r.Appr {
 				signedOK[r.Idx] = true
 			}
@@ -1153,7 +1300,7 @@ func main() {
 	if o.Search {
 		items = nil
 	}
-	vh.WriteShards(o.Out, "c10", &vh.CaseFile{Header: "From Kyber Require Import VSS.VssSM VSS.VssRun.", Type: "case", Runner: "mismatches", Items: items}, 40, rep)
+	vh.WriteShards(o.Out, "c10", &vh.CaseFile{Header: "From Kyber Require Import VSS.VssSM VSS.VssRun.", Type: "case", Runner: "mismatches", Items: items}, 60, rep)
 	rep.Write(o.Out)
 	fmt.Printf("c10: %d cases, %d oracle failures\n", len(items), len(rep.Failures))
 }
